@@ -25,7 +25,7 @@ def gen_tree(rng, ndim, levelmin, levelmax, nx, refine_p=0.45, max_octs=60, chai
     `chain`: below levelmin exactly one cell per oct is refined, down to levelmax (a deep zoom: few octs, many levels)."""
     twotondim = 2 ** ndim
     octs = []
-    off = (nx // 2)
+    nxs = list(nx) if isinstance(nx, (list, tuple)) else [nx] * ndim      # coarse-grid size per axis
 
     def new_oct(level, centre, active):
         o = {"id": len(octs) + 1, "level": level, "centre": list(centre), "sons": [0] * twotondim, "active": active}
@@ -52,9 +52,9 @@ def gen_tree(rng, ndim, levelmin, levelmax, nx, refine_p=0.45, max_octs=60, chai
     import itertools
 
     roots = []
-    for idx in itertools.product(range(nx), repeat=ndim):
+    for idx in itertools.product(*[range(nxs[k]) for k in range(ndim)]):
         centre = [Fraction(i) + Fraction(1, 2) for i in idx]
-        active = all(i == off for i in idx)
+        active = all(i == nxs[k] // 2 for k, i in enumerate(idx))
         roots.append(new_oct(1, centre, active))
     for o in roots:
         if o["active"]:
@@ -64,7 +64,7 @@ def gen_tree(rng, ndim, levelmin, levelmax, nx, refine_p=0.45, max_octs=60, chai
 
 def gen_output(rng, ndim=None, ncpu=None, levelmin=None, levelmax=None, nboundary=None, exact=True,
                hydro_vars=None, with_grav=None, with_rt=None, with_part=None, with_sink=None,
-               owner_fn=None, max_octs=60, noutput=None, keyb=None, tree_levelmax=None, chain=False, chain_pick=None):
+               owner_fn=None, max_octs=60, noutput=None, keyb=None, tree_levelmax=None, chain=False, chain_pick=None, nxs=None):
     r = rng
     ndim = ndim or r.choice([1, 2, 3])
     ncpu = ncpu or r.randint(1, 5)
@@ -72,8 +72,17 @@ def gen_output(rng, ndim=None, ncpu=None, levelmin=None, levelmax=None, nboundar
     levelmin = min(levelmin or r.randint(1, levelmax), levelmax)
     nboundary = r.choice([0, 0, 1, 2]) if nboundary is None else nboundary
     nx = 3 if nboundary > 0 else 1
+    forced = nxs
+    nxs = [nx] * ndim
+    if forced is not None:
+        nxs = list(forced)[:ndim]
+    elif nboundary > 0 and ndim > 1 and r.random() < 0.5:
+        # boundary regions along some axes only (a stratified box, periodic in the others): the coarse grid is not cubic
+        nxs = [r.choice([1, 3]) for _ in range(ndim)]
+        if all(n == 1 for n in nxs):
+            nxs[r.randrange(ndim)] = 3
     # `tree_levelmax`: the deepest level that may actually be refined (the header's levelmax can be larger)
-    octs = gen_tree(r, ndim, levelmin, min(tree_levelmax or levelmax, levelmax), nx, max_octs=max_octs, chain=chain, chain_pick=chain_pick)
+    octs = gen_tree(r, ndim, levelmin, min(tree_levelmax or levelmax, levelmax), nxs, max_octs=max_octs, chain=chain, chain_pick=chain_pick)
     twotondim = 2 ** ndim
     # ownership: active octs -> cpu domains 1..ncpu, boundary octs -> ncpu+1..ncpu+nboundary
     for o in octs:
@@ -141,7 +150,7 @@ def gen_output(rng, ndim=None, ncpu=None, levelmin=None, levelmax=None, nboundar
                 held["%d,%d" % (lvl, dom)] = lst
         files[str(cpu)] = held
     out = {
-        "ndim": ndim, "ncpu": ncpu, "nboundary": nboundary, "levelmin": levelmin, "levelmax": levelmax, "nx": nx,
+        "ndim": ndim, "ncpu": ncpu, "nboundary": nboundary, "levelmin": levelmin, "levelmax": levelmax, "nx": nx, "nxs": nxs,
         "boxlen": boxlen, "unit_d": unit_d, "unit_l": unit_l, "unit_t": unit_t,
         "noutput": noutput or r.randint(1, 5), "keyb": keyb or r.choice([8, 16]), "time": Fraction(r.randint(0, 40), 8),
         "ordering": "hilbert", "bound_keys": [Fraction((8 ** (levelmax + 1)) * c // ncpu) for c in range(ncpu + 1)],
@@ -202,8 +211,8 @@ def opaque(ty, count):
 def amr_records(out, cpu):
     ndim, ncpu, nb, lm = out["ndim"], out["ncpu"], out["nboundary"], out["levelmax"]
     tt = 2 ** ndim
-    nx = out["nx"]
-    nxyz = [nx if k < ndim else 1 for k in range(3)]
+    nxs = out.get("nxs") or [out["nx"]] * ndim
+    nxyz = [nxs[k] if k < ndim else 1 for k in range(3)]
     ncoarse = nxyz[0] * nxyz[1] * nxyz[2]
     octs = {o["id"]: o for o in out["octs"]}
     held = out["files"][str(cpu)]
@@ -371,6 +380,7 @@ def rat(x):
 def to_json(out):
     """The abstract Output as the Lean driver reads it (rationals as strings)."""
     j = {k: out[k] for k in ("ndim", "ncpu", "nboundary", "levelmin", "levelmax", "nx", "noutput", "keyb", "ordering", "has_grav")}
+    j["nxs"] = list(out.get("nxs") or [out["nx"]] * out["ndim"])
     for k in ("boxlen", "unit_d", "unit_l", "unit_t", "time", "ghost_poison", "gamma"):
         j[k] = rat(out[k])
     j["bound_keys"] = [rat(b) for b in out["bound_keys"]]
